@@ -17,6 +17,7 @@ pub mod c12;
 pub mod c13;
 pub mod c14;
 pub mod c15;
+pub mod c16;
 pub mod c17;
 pub mod c08;
 pub mod script;
@@ -41,6 +42,7 @@ pub fn dispatch(check: &str, rep: &mut Rep) -> bool {
         "c13" => c13::run(rep),
         "c14" => c14::run(rep),
         "c15" => c15::run(rep),
+        "c16" => c16::run(rep),
         "c17" => c17::run(rep),
         _ => return false,
     }
